@@ -37,4 +37,11 @@ HARNESSES = [
          fp={"destroy": ["meta_reader_destroy", "c19_obj_destroy"],
              "copy": ["meta_reader_copy"], "read_at": "c19_unreachable_read_at", "do_block": "c19_unreachable_do_block"},
          flags=LEAK, timeout=300, unwind=4),
+    dict(name="data_reader", file="data_reader.c", label="bounded(block_size<=32)",
+         fp={"destroy": ["data_reader_destroy", "c19_obj_destroy"],
+             "copy": ["data_reader_copy", "c19_obj_copy"],
+             "read_at": "c19_unreachable_read_at", "do_block": "c19_unreachable_do_block"},
+         flags=LEAK, timeout=300, unwind=33,
+         cases=[dict(id="db%d_fb%d" % (d, f), defines={"HAVE_DB": d, "HAVE_FB": f}, tier="quick")
+                for d in (0, 1) for f in (0, 1)]),
 ]
